@@ -60,7 +60,7 @@ def build(case):
     targets = []  # (name, cols)
     out = []
     needs_provider = False
-    uq = 0
+    unq_names = set()  # a name is used unqualified at most once per script (same-named unresolved columns of different statements merge: K-unres-merge)
     for i, (kind, reads, cols_spec, wrap, variant) in enumerate(stmts_spec):
         avail = [(f"{s}.{n}", list(BASE_COLS)) for s, n in BASE] + [(f"s.{n}", list(c)) for n, c in targets]
         # read set: at least one earlier target when there is one (chains), plus optional others
@@ -84,6 +84,12 @@ def build(case):
         items = []
         star_variant = use_provider and variant == 1 and targets and not rewrite_target and kind != 0 and len(rels) == 1 and rels[0][0].startswith("s.w")
         unq_variant = use_provider and variant == 2 and targets and not rewrite_target and len(rels) >= 2 and rels[0][0].startswith("s.w")
+        if unq_variant:
+            cand = rels[0][1][cols_spec[0][1][0] % len(rels[0][1])]
+            if cand in unq_names:
+                unq_variant = False
+            else:
+                unq_names.add(cand)
         for j in range(ncols):
             form, (a, b) = cols_spec[j % len(cols_spec)]
             ca, cb = flat[a % len(flat)], flat[b % len(flat)]
